@@ -656,7 +656,7 @@ func mkCase(r *Rng, g c03Gen) c03Case {
 }
 
 func runC03(c *Ctx) {
-	c.Res.Rule = "cases = lists of 1..4 valid compatible profiles: (a) random families over a shared universe of entities (variants: renumbered/colliding ids, re-mapped binaries, negated/zeroed values, one-attribute tweaks, shuffled tables, self-duplicates), (b) enumerated near-duplicate pairs — one attribute of function/line/location/mapping/label/stack changed — in three placements (two inputs with colliding ids, one input, two inputs with ASLR) x two value signs, (c) label soups over tiny byte/number alphabets and digit soups (inline chains whose line/column numbers share hex digits) — inputs on which an encoding that loses a field boundary collides, (d) header grids, (e) cancelling inputs (re-merge path), (f) incompatible inputs, (g) families of 2-4 files merged by the pprof binary (pprof -proto a b ...; profiles for which parsing, symbolization, demangling and frame pruning are the identity: mappings with HasFunctions, plain function names, no drop/keep frames, inputs fixed points of Write/Parse); non-trivial = the real Merge hit a memo table (result has fewer samples or locations than the non-zero inputs put in); distinct by canonical text of the inputs"
+	c.Res.Rule = "cases = lists of 1..4 valid compatible profiles: (a) random families over a shared universe of entities (variants: renumbered/colliding ids, re-mapped binaries, negated/zeroed values, one-attribute tweaks, shuffled tables, self-duplicates), (b) enumerated near-duplicate pairs — for every field of Function/Line/Location/Mapping/labels two variants of that one field (original, empty/zero, equal to a sibling field such as SystemName=Name or BuildID=File, equal to the other entity's value, near miss), all pairs in both orders, plus hand-written pairs: one attribute of function/line/location/mapping/label/stack changed — in three placements (two inputs with colliding ids, one input, two inputs with ASLR) x two value signs, (c) label soups over tiny byte/number alphabets and digit soups (inline chains whose line/column numbers share hex digits) — inputs on which an encoding that loses a field boundary collides, (d) header grids, (e) cancelling inputs (re-merge path), (f) incompatible inputs, (g) families of 2-4 files merged by the pprof binary (pprof -proto a b ...; profiles for which parsing, symbolization, demangling and frame pruning are the identity: mappings with HasFunctions, plain function names, no drop/keep frames, inputs fixed points of Write/Parse); non-trivial = the real Merge hit a memo table (result has fewer samples or locations than the non-zero inputs put in); distinct by canonical text of the inputs"
 	if c.Replay != "" {
 		var cs c03Case
 		if err := c.LoadReplay(&cs); err != nil {
@@ -702,6 +702,11 @@ func runC03(c *Ctx) {
 	// (b) enumerated near-duplicates: all of them, every run
 	for i := 0; i < ndCount(); i++ {
 		one(genNearDup(i), i%6 == 0)
+	}
+	// (b') every field of every entity, one at a time: pairs of variants (original, empty/zero,
+	// equal to a sibling field, equal to the other entity's, near miss), both orders, 3 placements
+	for i, fc := range c03FieldCases() {
+		one(genFieldCase(fc), fc.placement == 1 && i%4 == 0)
 	}
 	// (d) header grid
 	for i := 0; i < 70; i++ {
